@@ -121,17 +121,21 @@ def _tail(segment):
     return segment[1]
 
 
+STATEFUL = None     # lifecycle checks: the stateful actor class to use and the hyper-parameters of the 'current code'
+HYPER = {}
+
+
 def make(e, x=1, tmp=None):
     """AST -> real composable."""
     from forml.pipeline import ensemble, payload, wrap
     op = e['op']
-    cls = symbolic.Stateful if e['sf'] else symbolic.Stateless
+    cls = (STATEFUL or symbolic.Stateful) if e['sf'] else symbolic.Stateless
     if op == 'seq':
         return make(e['kids'][0], 10 * x + 1, tmp) >> make(e['kids'][1], 10 * x + 2, tmp)
     if op in ('mapper', 'apply', 'train', 'label'):
-        return getattr(wrap.Operator, op)(cls)(str(x))
+        return getattr(wrap.Operator, op)(cls)(str(x), **HYPER)
     if op == 'custom':
-        return custom_operator(cls.builder(str(x)))
+        return custom_operator(cls.builder(str(x), **HYPER))
     if op == 'chain':
         return chain_operator(cls.builder(str(10 * x + 1)), cls.builder(str(10 * x + 2)), e['sf'])
     if op in ('lmapper', 'lapply', 'ltrain'):
